@@ -37,10 +37,20 @@ Fixpoint run_history5 (files : list (list N)) (m : option memo) (ops : list tree
         let '(r, m', pulled) := read_stream legacy m file a in
         Nd [of_result of_pose r; of_n pulled] :: run_history5 files m' rest
   end.
+(* (6 file (cut ...) kind args prime): for every cut, Pose.read of file[:cut] (kind 0 bytes / 1 stream) with
+   [args], after priming the memo by a full read of the intact file (prime = 1) or not (prime = 0) *)
+Definition run_cuts (file : list N) (cuts : list N) (kind : Z) (a : rargs) (prime : bool) : list tree :=
+  let m0 := if prime then snd (read_bytes legacy None file no_args) else None in
+  map (fun c =>
+         let q := takeN c file in
+         if (kind =? 0)%Z then of_result of_pose (fst (read_bytes legacy m0 q a))
+         else of_result of_pose (fst (fst (read_stream legacy m0 q a)))) cuts.
 Definition dispatch_with (t : tree) : tree :=
   let op := t_z (t_nth 0 t) in
   if (op =? 1)%Z then of_result of_ns (write_pose (t_wpose (t_nth 1 t)))
   else if (op =? 4)%Z then Nd (run_history None (t_list (t_nth 1 t)))
   else if (op =? 5)%Z then Nd (run_history5 (map t_ns (t_list (t_nth 1 t))) None (t_list (t_nth 2 t)))
+  else if (op =? 6)%Z then
+    Nd (run_cuts (t_ns (t_nth 1 t)) (t_ns (t_nth 2 t)) (t_z (t_nth 3 t)) (t_rargs (t_nth 4 t)) (t_bool (t_nth 5 t)))
   else Nd [L 0; L (-1)].
 End Run.
